@@ -130,6 +130,8 @@ pub struct Exec<'a, H: HashAlgorithm> {
     /// Per step with armed image faults: (state before, state after if it succeeds, seqn before, options).
     pub snaps: BTreeMap<usize, StepSnap>,
     pub halted: bool,
+    /// (ln bump, bbn bump) observed each time the store became empty again (C19 cycles).
+    empty_bumps: Vec<(u32, u32)>,
 }
 
 #[derive(Clone)]
@@ -156,6 +158,7 @@ impl<'a, H: HashAlgorithm> Exec<'a, H> {
             cur_trie: None,
             snaps: BTreeMap::new(),
             halted: false,
+            empty_bumps: Vec::new(),
         }
     }
 
@@ -680,6 +683,26 @@ impl<'a, H: HashAlgorithm> Exec<'a, H> {
             }
             if st.is_empty() && occupied != 0 {
                 return Err(self.v("C19", "occupancy-nonzero-when-empty", format!("store is empty but occupied = {occupied}")));
+            }
+            if st.is_empty() && self.model.seqn > 0 && self.scen.extra.get("c19_cycles").and_then(|x| x.as_bool()).unwrap_or(false) {
+                // Fill / overwrite / empty cycles whose fills alternate between two fixed layouts
+                // (same keys; per key a fixed length in layout A and another in layout B, so values
+                // migrate between in-leaf and overflow form). Cycles 0 and 1 warm up, cycles 2 and 3
+                // are the steady state of each layout: from cycle 4 on the frontier after deleting
+                // everything must not exceed the larger of those two, up to free-list bookkeeping
+                // slack (one free-list page per 1022 freed pages, rewritten copy-on-write).
+                self.empty_bumps.push((img.meta.ln_bump, img.meta.bbn_bump));
+                let n = self.empty_bumps.len();
+                if n >= 5 {
+                    let l = self.empty_bumps[2].0.max(self.empty_bumps[3].0);
+                    let bb = self.empty_bumps[2].1.max(self.empty_bumps[3].1);
+                    let (ln, bn) = self.empty_bumps[n - 1];
+                    let slack = |base: u32| 8 + base / 64;
+                    if ln > l + slack(l) || bn > bb + slack(bb) {
+                        return Err(self.v("C19", "frontier-keeps-growing", format!("frontier (ln bump, bbn bump) after each emptying: {:?}; cycle {} exceeds the steady state of cycles 2/3 by more than the free-list slack", self.empty_bumps, n - 1)));
+                    }
+                }
+                *rep!(self).probes.entry("c19.empty_points".into()).or_default() += 1;
             }
         }
         rep!(self).decodes += 1;
